@@ -58,7 +58,7 @@ def run(prop="C05", tier="quick"):
     fns = {f["name"]: f for f in facts["functions"]}
     if not any("param_edges" in f for f in facts["functions"]):
         raise AnalysisBroken("R-CONSTSRC.ir: the IR extractor emitted no param_edges (stale build/mpir-ir?)")
-    ex = sa.export(sa.Config("built-constsrc", extra_files=[FIXTURE]))
+    ex = sa.export(sa.cfg_builtfx())
     sa.check_errors(ex)
     decl, where = {}, {}
     extern_pc = collections.defaultdict(dict)
